@@ -14,7 +14,7 @@
 
    The model is the code after the fix commits 3c868d2, 8478320, 81cf028, 87d326f; the inputs on which the code
    departed from Python before them are kept as Examples below (and in corpus/C11).  No theorem is _partial. *)
-From DJC Require Import Lib.Base Bind.Model Bind.Proofs.
+From DJC Require Import Lib.Base Bind.Model Bind.Proofs Bind.Flags Bind.FlagsProofs.
 Import Coq.Strings.String.StringSyntax.
 Local Open Scope string_scope.
 
@@ -72,6 +72,47 @@ Theorem never_called_with_other_bindings : forall special use_code sv cv F call 
   res_equiv (py_call F (sv :: cv :: args) kwargs) (py_bind sv cv F call).
 Proof. exact never_other_bindings_lemma. Qed.
 Print Assumptions never_called_with_other_bindings.
+
+(* ---- parse-time step in front of the binding: flags (Bind/Flags.v, _extract_flags) ----
+   Which attributes a tag with declared flags removes decides which arguments are bound.  For every list of declared
+   flags that are identifiers and every attribute list: the loop of _extract_flags (text comparison of the serialized
+   attribute) = the specification "a flag is a key-less, un-spread attribute written as a bare word that the tag declares";
+   in particular the branch "reserved flag cannot be spread" is unreachable. *)
+Theorem flags_are_exactly_the_declared_bare_words : forall allowed,
+  forallb is_identifier allowed = true ->
+  forall attrs found, forallb wf_attr attrs = true ->
+  extract_flags allowed attrs found = flags_spec allowed attrs found.
+Proof. exact extract_flags_spec. Qed.
+Print Assumptions flags_are_exactly_the_declared_bare_words.
+
+(* A variable that is merely NAMED like a flag but carries a filter chain, is spread, is quoted or is the value of a
+   keyword stays an argument, in place. *)
+Theorem flag_named_argument_is_kept : forall allowed a,
+  forallb is_identifier allowed = true -> wf_attr a = true ->
+  (a_spread a = true \/ (exists w f, a_form a = VFiltered w f) \/ (exists s, a_form a = VQuoted s) \/ a_key a <> None) ->
+  forall r found, extract_flags allowed (a :: r) found =
+    match extract_flags allowed r found with Ok (rem, fl) => Ok (a :: rem, fl) | Err e => Err e end.
+Proof. exact flag_named_argument_kept. Qed.
+Print Assumptions flag_named_argument_is_kept.
+
+(* The whole tag with flags: the arguments bound are those of the attributes that are not flags, in order, bound like
+   the Python call of exactly those arguments; the flags reported are exactly the declared bare words written; the only
+   other outcome is the refusal of a repeated flag (TemplateSyntaxError, shown as OtherError). *)
+Theorem flagged_tag_binds_like_python : forall special use_code sv cv F allowed attrs,
+  wfb special F = true -> forallb is_identifier allowed = true -> forallb wf_attr attrs = true ->
+  match extract_flags allowed attrs [] with
+  | Ok (rem, fl) =>
+      rem = filter (fun a => negb (is_flag allowed a)) attrs /\
+      (forall w, In w fl <-> exists a, In a attrs /\ flag_word allowed a = Some w) /\
+      impl_tag special use_code sv cv F allowed attrs = impl_bind special use_code sv cv F (map a_arg rem) /\
+      py_tag sv cv F allowed attrs = py_bind sv cv F (map a_arg rem) /\
+      res_equiv (impl_tag special use_code sv cv F allowed attrs) (py_tag sv cv F allowed attrs)
+  | Err e =>
+      e = OtherError /\ impl_tag special use_code sv cv F allowed attrs = Err OtherError /\
+      py_tag sv cv F allowed attrs = Err OtherError
+  end.
+Proof. exact flagged_tag_lemma. Qed.
+Print Assumptions flagged_tag_binds_like_python.
 
 (* Sanity of the S-model: an accepted Python call binds every parameter exactly once, in signature order, and
    **kwargs holds only supplied keywords that name no keyword-capable parameter. *)
@@ -154,4 +195,20 @@ Example nonstring_spread_key_fixed :
   (* a positional argument after the mapping: SyntaxError for Python (compile time), TypeError for the tag - same class *)
   py_bind SV CV F [TSpreadD [(DNone, 2%N)]; TPos 3%N] = Err SyntaxError /\
   impl_bind py_special true SV CV F [TSpreadD [(DNone, 2%N)]; TPos 3%N] = Err TypeError.
+Proof. vm_compute. repeat split. Qed.
+
+(* flags: def render(self, context, a, b=902), flags required / default declared.
+   {% t required|add:0 12 required %} : the filtered variable stays the first argument, the bare word is the flag *)
+Example flag_named_filtered_variable_is_an_argument :
+  let F := mkSig [] [mkP (s2n "self") None; mkP (s2n "context") None; mkP (s2n "a") None; mkP (s2n "b") (Some 902%N)] None [] None in
+  let allowed := [s2n "required"; s2n "default"] in
+  let attrs := [mkA (VFiltered (s2n "required") (s2n "add:0")) (TPos 11%N); mkA (VOther (s2n "12")) (TPos 12%N);
+                mkA (VBare (s2n "required")) (TPos 0%N)] in
+  forallb is_identifier allowed = true /\ forallb wf_attr attrs = true /\
+  tag_flags allowed attrs = Some [s2n "required"] /\
+  impl_tag py_special true SV CV F allowed attrs
+    = Ok (mkB [(s2n "self", SV); (s2n "context", CV); (s2n "a", 11%N); (s2n "b", 12%N)] None None) /\
+  py_tag SV CV F allowed attrs = impl_tag py_special true SV CV F allowed attrs /\
+  (* a repeated flag is refused *)
+  impl_tag py_special true SV CV F allowed (attrs ++ [mkA (VBare (s2n "required")) (TPos 0%N)]) = Err OtherError.
 Proof. vm_compute. repeat split. Qed.
